@@ -950,4 +950,61 @@ class NativeCircCLI(NativeCheck):
         return None
 
 
-NATIVE = [NativeCirc(), NativeCircCLI()]
+class NativeCircRows(NativeCheck):
+    name = 'circ_rows_through_the_command'
+    props = ('C17',)
+    functions = (f'{CLI}:parse_circexplorer', 'moPepGen/parser/CIRCexplorerParser.py:parse')
+    bounded_for = ('every valid row of the input table yields its own record, read back from the GVF with exactly the reported blocks: rows with '
+                   'many blocks (offsets of different digit counts), and two rows of one isoform with the same ends but different blocks')
+    bound = 'three hand-made rows on the exons of ENST00000614167.2 of the demo annotation, CIRCexplorer2 layout'
+    quick_budget_s = 30
+    thorough_budget_s = 30
+
+    def cases(self, rng, tier):
+        yield dict(v3=False)
+
+    def check(self, inp):
+        import argparse, tempfile, shutil, os
+        from pathlib import Path
+        import importlib
+        mod = importlib.import_module('moPepGen.cli.parse_circexplorer')
+        from moPepGen import circ
+        data = Path(os.environ.get('PYVC_REPO', '/repo')) / 'test' / 'files'
+        exons = [(0, 323), (323, 405), (405, 750), (750, 869), (1097, 1264), (1264, 1490)]       # ENST00000614167.2, + strand, gene starts at 0
+        picks = [[0, 1, 2, 3, 4], [1, 2, 3], [1, 3]]
+        d = Path(tempfile.mkdtemp(prefix='verif_c17r_'))
+        try:
+            rows, want = [], []
+            for n, pk in enumerate(picks):
+                blocks = [exons[i] for i in pk]
+                st_, en_ = blocks[0][0], blocks[-1][1]
+                sizes = ','.join(str(b - a) for a, b in blocks)
+                offs = ','.join(str(a - st_) for a, b in blocks)
+                idx = ','.join(str(i + 1) for i in pk)
+                f = ['chr22', str(st_), str(en_), f'circular_RNA/{n + 3}', '0', '+', str(st_), str(st_), '0,0,0', str(len(blocks)), sizes, offs, str(n + 3), 'circRNA',
+                     'RIBC2', 'ENST00000614167.2', idx, 'chr22:0-1|chr22:2-3']
+                rows.append('\t'.join(f))
+                want.append(sorted(blocks))
+            src = d / 'rows.txt'
+            src.write_text('\n'.join(rows) + '\n')
+            top = argparse.ArgumentParser(prog='moPepGen')
+            sp = mod.add_subparser_parse_circexplorer(top.add_subparsers(dest='command'))
+            argv = ['-i', str(src), '-o', str(d / 'out.gvf'), '--source', 'circRNA', '--annotation-gtf', str(data / 'annotation.gtf'), '--quiet']
+            args = top.parse_args([sp.prog.split()[-1]] + argv)
+            args.func(args)
+            got = []
+            with open(d / 'out.gvf') as fh:
+                for rec in circ.io.parse(fh):
+                    got.append(sorted((int(x.location.start), int(x.location.end)) for x in rec.fragments))
+            if sorted(got) != sorted(want):
+                return dict(call='parseCIRCexplorer on three rows of ENST00000614167.2 (5 blocks; exons 2-3-4; exons 2 and 4)', observed=sorted(got), expected=sorted(want),
+                            signature='a-valid-row-has-no-record-of-its-own')
+        finally:
+            shutil.rmtree(d, ignore_errors=True)
+        return None
+
+    def nontrivial(self, inp):
+        return str(inp)
+
+
+NATIVE = [NativeCirc(), NativeCircCLI(), NativeCircRows()]
